@@ -10,7 +10,9 @@
 Nothing here imports the driver at module import time (the repository path is set up by the check).
 """
 import random
+import re
 
+from spec import frames as F
 from sim.scen import Plan, uid_of, uid_query, ECHO_COLS      # noqa: F401  (re-exported)
 
 EPS = 0.05          # the driver's own 3 x 0.01 s re-arm of the timeout plus slack
@@ -30,6 +32,19 @@ def err(kind):
 
 def held_err(kind):
     return ('hold-error', kind, dict(ERR_INFO.get(kind, {})))
+
+
+FOLLOWUP_USE_RE = re.compile(r'\s*use\s+"?ks(\d+)"?\s*;?\s*$', re.I)
+
+
+def use_statement(uid):
+    """a USE statement carrying the request uid: the node answers it with RESULT set_keyspace 'ks<uid>'"""
+    return "USE /*uid=%d*/ ks%d" % (uid, uid)
+
+
+def ddl_statement(uid):
+    """a DDL statement carrying the request uid: the node answers it with RESULT schema_change CREATED KEYSPACE ks<uid>"""
+    return "CREATE KEYSPACE /*uid=%d*/ ks%d WITH replication = {'class': 'SimpleStrategy', 'replication_factor': 1}" % (uid, uid)
 
 
 def page_state(uid, k):
@@ -59,6 +74,7 @@ class ReqPlan(Plan):
         self.pages = {}
         self.started = set()
         self.epoch_of = {}           # uid -> page epoch the client is in (maintained by the scenario)
+        self.use_followup = {}       # uid -> actions for the internal per-pool `USE "ks<uid>"` the driver sends after a set_keyspace result
         self.arrivals = []
         self.unexpected = []
 
@@ -84,6 +100,22 @@ class ReqPlan(Plan):
             return None
         if op == 'QUERY':
             uid = uid_of(req['query'])
+            if uid is None:
+                m = FOLLOWUP_USE_RE.match(req['query'] or '')
+                if m and int(m.group(1)) in self.use_followup and int(m.group(1)) in self.started:
+                    # the driver switches the keyspace of every pool's connection after the coordinator answered the USE statement
+                    fu = int(m.group(1))
+                    acts = self.use_followup[fu]
+                    a = acts.pop(0) if len(acts) > 1 else (acts[0] if acts else 'rows')
+                    self._note(node, cstate, req, fu, 0, 'followup-use:' + a)
+                    if a == 'silent':
+                        return ('silence',)
+                    cstate.keyspace = 'ks%d' % fu
+                    r = node.reply(cstate, req, 'RESULT', F.body_result_set_keyspace('ks%d' % fu))
+                    if a in ('hold', 'late'):
+                        req['_s1_action'] = a
+                        return ('hold', r[1])
+                    return r
         elif op == 'EXECUTE':
             uid = uid_of(self.prepared.get(req['query_id'], ''))
         else:
@@ -110,6 +142,11 @@ class ReqPlan(Plan):
                               'ev': len(node.net.events) - 1, 'answered': None})
 
     def react(self, node, cstate, req, uid, page, a):
+        if a == 'use':
+            cstate.keyspace = 'ks%d' % uid
+            return node.reply(cstate, req, 'RESULT', F.body_result_set_keyspace('ks%d' % uid))
+        if a == 'ddl':
+            return node.reply(cstate, req, 'RESULT', F.body_result_schema_change(req['version'], 'CREATED', 'KEYSPACE', 'ks%d' % uid))
         if a in ('rows', 'hold', 'late'):
             md = {}
             if uid in self.pages:
